@@ -75,6 +75,12 @@ TBias == /\ IsEvent("Bias")
          /\ T.dig = cfg.encdig /\ T.len = cfg.enclen
          /\ UNCHANGED <<lzvars, l2vars, cfg>>
 
+\* the same run on a fresh lzma_stream: a handle re-initialised after an abandoned session (no lzma_end) must
+\* produce exactly the same bytes
+TFresh == /\ IsEvent("Fresh")
+          /\ T.dig = cfg.encdig /\ T.len = cfg.enclen
+          /\ UNCHANGED <<lzvars, l2vars, cfg>>
+
 TEnd == /\ IsEvent("End")
         /\ fin /\ ch = NoChunk
         /\ cprod = cfg.inlen                                \* everything was encoded
@@ -85,7 +91,7 @@ TEnd == /\ IsEvent("End")
         /\ UNCHANGED <<lzvars, l2vars, cfg>>
 
 TNext == TReset \/ TChunkLzma \/ TLits \/ TMatch \/ TRep \/ TSRep \/ TAgg \/ TChunkEnd \/ TChunkUnc
-         \/ TChunkEndMarker \/ TUpdate \/ TEmpty \/ TBias \/ TEnd
+         \/ TChunkEndMarker \/ TUpdate \/ TEmpty \/ TBias \/ TFresh \/ TEnd
 TSpec == TInit /\ [][TNext]_tvars
 TraceAccepted == TLCGet("stats").diameter - 1 = Len(TraceLog)
 =============================================================================
